@@ -91,7 +91,7 @@ var pipeRealStub = map[string]string{
 	"d2svg, d2sketch, d2fonts, textmeasure":                                        "real (C25)",
 	"import file system":                                                           "in-memory fs.FS whose Open is a scheduling point",
 	"caller tasks":                                                                 "goroutines released one at a time by the simulator at stage boundaries (start, import, compile, layout per nested graph, render per board) and at about 12 600 statement-level scheduling points written into d2's pipeline packages by a source overlay (no change to /repo)",
-	"goroutines that the pipeline starts itself (none on the unchanged tree)":      "scheduled like tasks when started as go func(){...}() (announced by the source overlay) and joined through sync.WaitGroup (Wait is a scheduling point, sync overlay); go f(x), errgroup and channel rendezvous are not",
+	"goroutines that the pipeline starts itself (none on the unchanged tree)":      "scheduled like tasks when started as go func(){...}() or x.Go(func(){...}) (announced by the source overlay) and joined through sync.WaitGroup (Wait is a scheduling point, sync overlay); go f(x) and channel rendezvous are not",
 	"layout plugins (C25)":                                                         "half of the specs reach dagre/ELK through d2plugin's bundled plugin objects, hydrated once per process from the flag defaults as the CLI does; the others through DefaultLayout",
 	"map iteration / select":                                                       "runtime seam: a function of the tape, re-derived at every release",
 	"wall clock (time.Now) of a task":                                              "simulated: advances by a tape-chosen rate (50 ns ... 2 ms) per scheduling point, drawn anew for every slice",
